@@ -102,6 +102,32 @@ func main() {
 	}
 	sort.Strings(rows)
 	fmt.Printf("def randSites : List (String × List String × Bool) := [%s]\n", strings.Join(rows, ",\n  "))
+	ex.Comment("what every Priority() method of a checkpoint implementation returns (package.Type, value)")
+	var prios []string
+	packages.Visit(pkgs, nil, func(pk *packages.Package) {
+		if !strings.HasPrefix(pk.PkgPath, exg.Module) {
+			return
+		}
+		for _, f := range pk.Syntax {
+			for _, d := range f.Decls {
+				fd, ok := d.(*ast.FuncDecl)
+				if !ok || fd.Body == nil || fd.Name.Name != "Priority" || fd.Recv == nil || len(fd.Body.List) != 1 {
+					continue
+				}
+				ret, ok := fd.Body.List[0].(*ast.ReturnStmt)
+				if !ok || len(ret.Results) != 1 {
+					continue
+				}
+				if tv, ok := pk.TypesInfo.Types[ret.Results[0]]; ok && tv.Type.String() == exg.Module+"/core/checkpoint.Priority" {
+					v, _ := exg.ConstString(pk, ret.Results[0])
+					prios = append(prios, fmt.Sprintf("(%s, %s)", ex.LeanStr(strings.TrimPrefix(pk.PkgPath, exg.Module+"/")+"."+ex.RecvName(fd)), v))
+				}
+			}
+		}
+	})
+	sort.Strings(prios)
+	fmt.Printf("def checkpointPriorities : List (String × Nat) := [%s]\n", strings.Join(prios, ", "))
+
 	ex.Comment("EVERY function of the module that mentions a seedable-generator package: (package, function, in a boundary package?, the statements that mention it)")
 	var allSites []string
 	packages.Visit(pkgs, nil, func(pk *packages.Package) {
